@@ -272,12 +272,74 @@ def classes_and_prosody(chk, cc):
                       {'kind': 'classes-model', 'detail': str(bad[0]), 'broken': 'correspondence:prosodic/token2class'}, found_input=False)
 
 
+GEN_SC = os.path.join(common.LEAN, 'Verif', 'Generated', 'SoundClasses.lean')
+
+
+def translate_soundclasses(chk):
+    """translator: the shipped converter files (src/lingpy/data/models/<model>/converter, read here, not through the library) ->
+    Verif/Generated/SoundClasses.lean: per model the distinct class values, with the obligations GapClassFree and ArtDigits proved by
+    `decide` over the table.  Rewritten on every run; a data file that starts to emit the gap class makes the generated module fail."""
+    import unicodedata
+    base = os.path.join(common.REPO, 'src', 'lingpy', 'data', 'models')
+    table = {}
+    for model in sorted(os.listdir(base)):
+        p = os.path.join(base, model, 'converter')
+        if not os.path.isfile(p):
+            continue
+        text = unicodedata.normalize('NFC', open(p, encoding='utf-8-sig').read())
+        classes = []
+        for line in text.split('\n'):
+            line = line.rstrip('\r')
+            if ' : ' in line:
+                cls = line.split(' : ', 1)[0]
+                if cls not in classes:
+                    classes.append(cls)
+        table[model] = sorted(classes)
+    longer = sorted(set(c for cs in table.values() for c in cs if len(c) != 1))
+    code = lambda c: ord(c) if len(c) == 1 else 1114112 + longer.index(c)       # noqa: E731
+    lines = ['-- GENERATED by harness/props/c14.py from the converter files under src/lingpy/data/models of the checked repository. Do not edit.',
+             'namespace Verif.Generated', '',
+             '/-- per shipped model: the distinct class values of its converter file (the code point of a one-character class,',
+             '1114112 + n for the n-th class name of another length - such a name is never the one-character gap class) -/',
+             'def classTable : List (String × List Nat) := [']
+    lines.append(',\n'.join('  ("%s", [%s])' % (m, ', '.join(str(code(c)) for c in table[m])) for m in sorted(table)))
+    lines += [']', '',
+              '/-- generated obligation: no shipped converter emits the gap class `X` (88) or `-` (45) -/',
+              'theorem GapClassFree : ∀ m ∈ classTable, ∀ c ∈ m.2, c ≠ 88 ∧ c ≠ 45 := by decide', '',
+              '/-- generated obligation: the `art` model (sonority) emits only the digits 1-9 -/',
+              'theorem ArtDigits : ∀ m ∈ classTable, m.1 = "art" → ∀ c ∈ m.2, 49 ≤ c ∧ c ≤ 57 := by decide', '',
+              'end Verif.Generated', '']
+    src = '\n'.join(lines)
+    with common.LakeLock():
+        old = open(GEN_SC, encoding='utf8').read() if os.path.exists(GEN_SC) else ''
+        if old != src:
+            os.makedirs(os.path.dirname(GEN_SC), exist_ok=True)
+            open(GEN_SC, 'w', encoding='utf8').write(src)
+    chk.extra['models_in_generated_class_table'] = {m: len(v) for m, v in table.items()}
+    return table
+
+
 def run(chk):
     chk.rule = ('strings over the repository\'s own inventories (vowels, diacritics, tones, stress, combiners, breaks, consonants) with unusual '
                 'orders forced, exhaustive over a 9-symbol class-representative alphabet to length 4/5, x merge_vowels / merge_geminates / '
                 'semi_diacritics; sonority profiles exhaustive to length 4/5 over {1,3,5,7,8,9} + random; all shipped models; '
                 'non-trivial = more than one token and at least one multi-character token')
+    table = translate_soundclasses(chk)
     chk.lean_obligations()
+    with common.LakeLock():
+        rc_, out_ = common.sh(['lake', 'build', 'Verif.Generated.SoundClasses', 'Verif.Props.C14Gen'], cwd=common.LEAN, timeout=1200)
+    offending = {m: [c for c in cs if c in ('X', '-')] for m, cs in table.items()}
+    chk.obligation('generated:GapClassFree + ArtDigits (decide over Verif/Generated/SoundClasses.lean: %d models, class values read from the shipped converter files)' % len(table),
+                   'generated-obligation', rc_ == 0, (str({m: v for m, v in offending.items() if v}) or out_[-300:]) if rc_ else '')
+    if rc_ != 0:
+        bad_models = sorted(m for m, v in offending.items() if v) or sorted(m for m in ('art',) if any(c not in '123456789' for c in table.get('art', [])))
+        if bad_models:
+            m0 = bad_models[0]
+            chk.violation('the converter file of model %r emits the class %r: a sound class equal to the gap class (or, for art, not a digit)' % (m0, offending.get(m0) or table.get(m0)),
+                          {'kind': 'generated', 'model': m0, 'classes': table.get(m0), 'broken': 'generated:GapClassFree/ArtDigits'})
+        else:
+            chk.violation('the generated obligations over the sound-class tables no longer check', {'kind': 'generated', 'broken': 'generated:GapClassFree/ArtDigits', 'build': out_[-500:]},
+                          found_input=False)
     cc = char_classes()
     tokeniser(chk, cc)
     classes_and_prosody(chk, cc)
